@@ -169,6 +169,7 @@ def gen_function(c: Contract, prop: str, bounded=None) -> FunctionReport:
                 elif allowed[1] is not None:
                     b = dict(s1.old.env)
                     s2 = s1.fork()
+                    s2.heap = dict(s1.old.heap)      # raise conditions speak about the state at entry
                     g = ex.eval_contract(s2, allowed[1], b)
                     ex.emit(s1, "raises", allowed[0], g)
                 # exceptional frame / postcondition
@@ -234,6 +235,7 @@ def gen_function(c: Contract, prop: str, bounded=None) -> FunctionReport:
             for en, cond in c.raises.items():
                 if cond is not None and c.opts.get("raises_iff", True):
                     s2 = s1.fork()
+                    s2.heap = dict(s1.old.heap)      # raise conditions speak about the state at entry
                     g = ex.eval_contract(s2, cond, dict(s1.old.env))
                     ex.emit(s1, "raises-iff", en, z3.Not(g), note="normal return although the raise condition holds")
         if bounded is not None:
